@@ -1,6 +1,7 @@
 package peering
 
 import (
+	"errors"
 	"fmt"
 	"maps"
 	"net/netip"
@@ -152,6 +153,15 @@ func (p *Peering) AddLink(link Link) error {
 	p.linksLock.Lock()
 	defer p.linksLock.Unlock()
 
+	// Only one link per peer and per switch label may be registered:
+	// a second one would overwrite the first and strand it.
+	if _, ok := p.links[link.Peer()]; ok {
+		return errors.New("already connected to this router")
+	}
+	if _, ok := p.linksByLabel[link.SwitchLabel()]; ok {
+		return errors.New("switch label already in use")
+	}
+
 	_, err := p.instance.RoutingTable().AddRoute(m.RoutingTableEntry{
 		DstIP:   link.Peer(),
 		NextHop: link.Peer(),
@@ -172,9 +182,16 @@ func (p *Peering) RemoveLink(link Link) {
 	p.linksLock.Lock()
 	defer p.linksLock.Unlock()
 
-	delete(p.links, link.Peer())
-	delete(p.linksByLabel, link.SwitchLabel())
-	p.instance.RoutingTable().RemoveNextHop(link.Peer())
+	// Only remove the registry entries (and the peer route) that belong to
+	// this very link: another link to the same peer or with the same label
+	// may have been registered instead.
+	if p.links[link.Peer()] == link {
+		delete(p.links, link.Peer())
+		p.instance.RoutingTable().RemoveNextHop(link.Peer())
+	}
+	if p.linksByLabel[link.SwitchLabel()] == link {
+		delete(p.linksByLabel, link.SwitchLabel())
+	}
 
 	// If we reach zero links, trigger peering.
 	if len(p.links) == 0 && !p.mgr.IsDone() {
@@ -297,8 +314,8 @@ func (p *Peering) closeAllListeners() {
 }
 
 func (p *Peering) copyLinksWithLocking() map[netip.Addr]Link {
-	p.listenersLock.Lock()
-	defer p.listenersLock.Unlock()
+	p.linksLock.RLock()
+	defer p.linksLock.RUnlock()
 
 	return maps.Clone[map[netip.Addr]Link, netip.Addr, Link](p.links)
 }
